@@ -349,7 +349,7 @@ func Explore(prog *ssa.Program, sh *Shared, fn *ssa.Function, cfg Config) *Repor
 			if len(rep.Samples) < cfg.KeepSamples || (res.End == "violation" && len(rep.Samples) < cfg.KeepSamples*4) {
 				rep.Samples = append(rep.Samples, sampleOf(res))
 			}
-			if res.Model != nil && res.End == "ok" && len(rep.Models) < cfg.SampleModels {
+			if res.Model != nil && res.End == "ok" && len(res.Violations) == 0 && len(rep.Models) < cfg.SampleModels {
 				s := sampleOf(res)
 				s.Model = res.Model
 				rep.Models = append(rep.Models, s)
@@ -471,6 +471,9 @@ func runPath(prog *ssa.Program, sh *Shared, fn *ssa.Function, prefix []int32, so
 			case nonTermination:
 				res.End = "violation"
 				res.Msg = fmt.Sprintf("recursion bound exceeded: %d activations of %s", e.depth, e.fn)
+				if e.loop {
+					res.Msg = fmt.Sprintf("loop bound exceeded: a block of %s entered %d times in one activation", e.fn, e.depth)
+				}
 				func() {
 					defer func() {
 						if rr := recover(); rr != nil {
